@@ -40,9 +40,26 @@ def _cstr8(s):
     return _pad8(b)
 
 
+# the sample_type in force (module-level so that every record writer and build() agree); set_layout() switches it for one file
+_layout = {"sample_type": SAMPLE_TYPE}
+
+
+def set_layout(cpu=True, period=True):
+    """choose which optional fields the main event records: PERF_SAMPLE_CPU and PERF_SAMPLE_PERIOD (both on by default)"""
+    st = S_IP | S_TID | S_TIME | S_CALLCHAIN
+    if cpu:
+        st |= S_CPU
+    if period:
+        st |= S_PERIOD
+    _layout["sample_type"] = st
+
+
 def _trailer(pid, tid, time, cpu=0):
-    # sample_id_all trailer for TID | TIME | CPU
-    return struct.pack("<IIQII", pid, tid, time, cpu, 0)
+    # sample_id_all trailer for TID | TIME [| CPU]
+    b = struct.pack("<IIQ", pid, tid, time)
+    if _layout["sample_type"] & S_CPU:
+        b += struct.pack("<II", cpu, 0)
+    return b
 
 
 def _rec(ty, misc, body):
@@ -78,7 +95,13 @@ def sample(pid, tid, time, ip, callchain, cpu=0, period=1, kernel=False):
     """callchain: list of u64 (already including context markers if wanted); if None, [PERF_CONTEXT_USER, ip]"""
     if callchain is None:
         callchain = [PERF_CONTEXT_USER, ip]
-    body = struct.pack("<QIIQIIQQ", ip, pid, tid, time, cpu, 0, period, len(callchain)) + b"".join(struct.pack("<Q", x & ((1 << 64) - 1)) for x in callchain)
+    st = _layout["sample_type"]
+    body = struct.pack("<QIIQ", ip, pid, tid, time)
+    if st & S_CPU:
+        body += struct.pack("<II", cpu, 0)
+    if st & S_PERIOD:
+        body += struct.pack("<Q", period)
+    body += struct.pack("<Q", len(callchain)) + b"".join(struct.pack("<Q", x & ((1 << 64) - 1)) for x in callchain)
     return _rec(PERF_RECORD_SAMPLE, MISC_KERNEL if kernel else MISC_USER, body)
 
 
@@ -98,7 +121,7 @@ def build(records, arch="x86_64", first_time=None, last_time=None, period=100000
                        112,              # size (VER5)
                        0,                # config = PERF_COUNT_SW_CPU_CLOCK
                        period,           # sample_period
-                       SAMPLE_TYPE,
+                       _layout["sample_type"],
                        0,                # read_format
                        F_DISABLED | F_INHERIT | F_MMAP | F_COMM | F_TASK | F_SAMPLE_ID_ALL | F_MMAP2 | F_COMM_EXEC | (F_CONTEXT_SWITCH if context_switch else 0),
                        0, 0,             # wakeup, bp_type
